@@ -217,7 +217,39 @@ THEORY["seq_toreal_def"] = z3.ForAll([_sa, _sj], SEQ_TOREAL(_sa)[_sj] == z3.ToRe
 FLAT = z3.Function("flat_index", I, I, I, I)
 FLATLEN = z3.Function("flat_len", I, I, I)
 
+tpair = z3.Function("tpair", I, I, TupS)          # the literal 2-tuple (a, b) (used for literals only under the contract option "pair_literals")
+
+# set(k) for a node tuple k as a function of k (used under the contract option "tuple_sets": two mentions of set(k) are one term),
+# and |a & b| as a binary specification function on node sets (scommon_def ties it to the cardinality of the intersection)
+_SetI = z3.ArraySort(I, B)
+tset = z3.Function("tset", TupS, _SetI)
+scommon = z3.Function("scommon", _SetI, _SetI, I)
+
+def nx_centrality(kind, cls):
+    """networkx centrality of a graph over integer vertices: vertex -> value, an uninterpreted function of the graph's components."""
+    from . import ty as T
+    pt = T.Pair(T.INT, T.INT)
+    return z3.Function(f"nx_{kind}_{cls}", z3.ArraySort(I, B), z3.ArraySort(pt.sort(), B), z3.ArraySort(pt.sort(), B), z3.ArraySort(pt.sort(), R),
+                       z3.ArraySort(I, R))
+
+
 EXTRA = {}    # name -> axiom, registered by contract modules (assumed properties of uncontracted code; listed as trusted)
+
+
+_pa, _pb = z3.Int("_pa"), z3.Int("_pb")
+_ts1, _ts2 = z3.Const("_ts1", _SetI), z3.Const("_ts2", _SetI)
+EXTRA.update({
+    "tset_def (members of set(k))": z3.ForAll([_k, _n], tset(_k)[_n] == tmem(_k, _n), patterns=[tset(_k)[_n], MP(tmem(_k, _n), tset(_k))]),
+    "scommon_sym (|a & b| = |b & a|)": z3.ForAll([_ts1, _ts2], scommon(_ts1, _ts2) == scommon(_ts2, _ts1), patterns=[scommon(_ts1, _ts2)]),
+    "scommon_nonneg": z3.ForAll([_ts1, _ts2], scommon(_ts1, _ts2) >= 0, patterns=[scommon(_ts1, _ts2)]),
+    "tpair_def ((a, b) has length 2, holds a then b, and nothing else)": z3.ForAll(
+        [_pa, _pb], z3.And(tlen(tpair(_pa, _pb)) == 2, tat(tpair(_pa, _pb), 0) == _pa, tat(tpair(_pa, _pb), 1) == _pb,
+                           tmem(tpair(_pa, _pb), _pa), tmem(tpair(_pa, _pb), _pb), distinct_t(tpair(_pa, _pb)) == (_pa != _pb)),
+        patterns=[tpair(_pa, _pb)]),
+    "tpair_mem": z3.ForAll([_pa, _pb, _n], tmem(tpair(_pa, _pb), _n) == z3.Or(_n == _pa, _n == _pb), patterns=[tmem(tpair(_pa, _pb), _n)]),
+    "tpair_sorted_sym (sorting (a, b) and (b, a) gives the same tuple)": z3.ForAll(
+        [_pa, _pb], canon(tpair(_pa, _pb)) == canon(tpair(_pb, _pa)), patterns=[canon(tpair(_pa, _pb))]),
+})
 
 
 def decl_names(exprs, _cache={}):
